@@ -18,6 +18,6 @@ CONFIG = {
     "trusted": COMMON_TRUSTED + ["SHA-1 of event IDs (v1 tie-break) supplied as an oracle by the harness"],
     "assumptions": ["inputs are well-formed: each state set has one event per key; missing auth events are silently skipped (by the code and by the definition)",
                     "the definition (C10) speaks about room DAGs: the stage theorems assume an acyclic auth graph (Ranked / Acyclic); for cyclic auth_events (possible in room versions 1-2) "
-                    "only termination and well-formedness are claimed (C18 no_panic_resolve, C11 result theorems), and the model mirrors the code's cycle guards (fix c5e96b7)",
+                    "only termination and well-formedness are claimed (C18 no_panic_resolve, C11 result theorems), and the model mirrors the code's cycle guards (fix 0d78b57)",
                     "the library's refinements R1-R10 of DESIGN.md 6.2 are part of the definition"],
 }
